@@ -1081,46 +1081,58 @@ namespace chaiscript {
 
         ~Char_Parser() {
           try {
-            if (is_octal) {
-              process_octal();
-            }
+            finish();
+          } catch (...) {
+            // errors of a pending escape are reported by the explicit finish() call
+          }
+        }
 
-            if (is_hex) {
-              process_hex();
-            }
+        /// Completes an escape sequence that is still pending at the end of the literal
+        void finish() {
+          if (is_octal) {
+            process_octal();
+          }
 
-            if (unicode_size > 0) {
-              process_unicode();
-            }
-          } catch (const std::invalid_argument &) {
-          } catch (const exception::eval_error &) {
-            // Something happened with parsing, we'll catch it later?
+          if (is_hex) {
+            process_hex();
+          }
+
+          if (unicode_size > 0) {
+            process_unicode();
           }
         }
 
         void process_hex() {
-          if (!hex_matches.empty()) {
+          const bool was_empty = hex_matches.empty();
+          if (!was_empty) {
             auto val = stoll(hex_matches, nullptr, 16);
             match.push_back(char_type(val));
           }
           hex_matches.clear();
           is_escaped = false;
           is_hex = false;
+          if (was_empty) {
+            throw exception::eval_error("Incomplete hex escape sequence");
+          }
         }
 
         void process_octal() {
+          long long val = 0;
           if (!octal_matches.empty()) {
-            auto val = stoll(octal_matches, nullptr, 8);
-            match.push_back(char_type(val));
+            val = stoll(octal_matches, nullptr, 8);
           }
           octal_matches.clear();
           is_escaped = false;
           is_octal = false;
+          if (sizeof(char_type) == 1 && val > 0xFF) {
+            throw exception::eval_error("Octal escape sequence out of range");
+          }
+          match.push_back(char_type(val));
         }
 
         void process_unicode() {
-          const auto ch = static_cast<uint32_t>(std::stoi(hex_matches, nullptr, 16));
           const auto match_size = hex_matches.size();
+          const auto ch = match_size == 0 ? uint32_t(0) : static_cast<uint32_t>(std::stoul(hex_matches, nullptr, 16));
           hex_matches.clear();
           is_escaped = false;
           const auto u_size = unicode_size;
@@ -1132,6 +1144,9 @@ namespace chaiscript {
           }
           if (u_size == 4 && ch >= 0xD800 && ch <= 0xDFFF) {
             throw exception::eval_error("Invalid 16 bit universal character");
+          }
+          if (u_size == 8 && ((ch >= 0xD800 && ch <= 0xDFFF) || ch > 0x10FFFF)) {
+            throw exception::eval_error("Invalid 32 bit universal character");
           }
 
           if (ch < 0x80) {
@@ -1344,6 +1359,12 @@ namespace chaiscript {
               }
             }
 
+            try {
+              cparser.finish();
+            } catch (const exception::eval_error &e) {
+              throw exception::eval_error(e.reason, File_Position(start.line, start.col), *m_filename);
+            }
+
             if (cparser.saw_interpolation_marker) {
               match.push_back('$');
             }
@@ -1406,6 +1427,12 @@ namespace chaiscript {
 
             for (auto s = start + 1, end = m_position - 1; s != end; ++s) {
               cparser.parse(*s, start.line, start.col, *m_filename);
+            }
+
+            try {
+              cparser.finish();
+            } catch (const exception::eval_error &e) {
+              throw exception::eval_error(e.reason, File_Position(start.line, start.col), *m_filename);
             }
           }
 
